@@ -140,3 +140,20 @@ OPS['jsnum'] = async (s) => {
     if (typeof v !== 'number') return 'OTHER';
     return Number.isFinite(v) ? 'R' + String(v) : 'NF';
 };
+
+// get_variables_map of the REAL rbql_csv.js record iterator over a stream whose first line is the header
+OPS['itervars'] = async (kind, js, pfx, query, names, norm) => {
+    if (kind !== 'csv') return 'err kind';
+    const {Readable} = require('stream');
+    const rbql_csv = require(path.join(repo, 'rbql-js', 'rbql_csv.js'));
+    const csv_utils = require(path.join(repo, 'rbql-js', 'csv_utils.js'));
+    const ns = names === 'N' ? null : dec_list(names.slice(1));
+    const text = ns === null ? 'x,y\n' : ns.map(n => csv_utils.rfc_quote_field(n, ',')).join(',') + '\nx\n';
+    const it = new rbql_csv.CSVRecordIterator(Readable.from([Buffer.from(text, 'utf-8')]), null, 'utf-8', ',', 'quoted_rfc', ns !== null, null, 'input', dec_str(pfx));
+    let d;
+    try { d = await it.get_variables_map(dec_str(query)); } catch (e) {
+        if (is_parsing_error(e)) return 'err notfound';
+        throw e;
+    }
+    return enc_varmap(d);
+};
